@@ -938,13 +938,28 @@ func (l *lockedWriter) Write(p []byte) (int, error) {
 
 // Explore runs every feasible path of the job and calls cb (serialised) for each.
 func (eng *Engine) Explore(job *Job, cb func(*PathResult)) Stats {
+	return eng.ExploreMany([]*Job{job}, cb)
+}
+
+type workItem struct {
+	job    *Job
+	prefix []decision
+}
+
+// ExploreMany explores all jobs with one shared pool of workers (interpreter +
+// solver process per worker); cb is serialised and sees pr.Job.
+func (eng *Engine) ExploreMany(jobs []*Job, cb func(*PathResult)) Stats {
 	t0 := time.Now()
 	st := Stats{ByOutcome: map[string]int64{}, Funcs: map[string]int64{}}
 	var mu sync.Mutex // protects queue, st, cb
 	cond := sync.NewCond(&mu)
-	queue := [][]decision{nil}
+	// jobs are started in order; the queue is a stack so that one job's paths are
+	// finished before the next job is opened (bounded memory)
+	pending := jobs
+	var queue []workItem
 	active := 0
-	var paths int64
+	paths := map[*Job]int64{}
+	stopped := map[*Job]bool{}
 	workers := eng.Workers
 	if workers <= 0 {
 		workers = runtime.NumCPU()
@@ -990,37 +1005,51 @@ func (eng *Engine) Explore(job *Job, cb func(*PathResult)) Stats {
 			}()
 			for {
 				mu.Lock()
-				for len(queue) == 0 && active > 0 {
+				var it workItem
+				for {
+					if len(queue) > 0 {
+						it = queue[len(queue)-1]
+						queue = queue[:len(queue)-1]
+						if stopped[it.job] {
+							continue
+						}
+						if it.job.MaxPaths > 0 && paths[it.job] >= it.job.MaxPaths {
+							st.Truncated = true
+							stopped[it.job] = true
+							continue
+						}
+						break
+					}
+					if len(pending) > 0 {
+						it = workItem{job: pending[0]}
+						pending = pending[1:]
+						break
+					}
+					if active == 0 {
+						mu.Unlock()
+						cond.Broadcast()
+						return
+					}
 					cond.Wait()
 				}
-				if len(queue) == 0 {
-					mu.Unlock()
-					cond.Broadcast()
-					return
-				}
-				if job.MaxPaths > 0 && paths >= job.MaxPaths {
-					st.Truncated = true
-					queue = nil
-					mu.Unlock()
-					cond.Broadcast()
-					return
-				}
-				prefix := queue[len(queue)-1]
-				queue = queue[:len(queue)-1]
 				active++
-				paths++
+				paths[it.job]++
 				mu.Unlock()
 
+				fail := func(err error) {
+					firstErr.Store(err)
+					mu.Lock()
+					active--
+					queue = nil
+					pending = nil
+					mu.Unlock()
+					cond.Broadcast()
+				}
 				if i == nil {
 					var err error
 					i, err = eng.getInterp()
 					if err != nil {
-						firstErr.Store(err)
-						mu.Lock()
-						active--
-						queue = nil
-						mu.Unlock()
-						cond.Broadcast()
+						fail(err)
 						return
 					}
 				}
@@ -1028,19 +1057,14 @@ func (eng *Engine) Explore(job *Job, cb func(*PathResult)) Stats {
 					var err error
 					slv, err = newSolver(eng.SolverCmd, eng.TimeoutMs)
 					if err != nil {
-						firstErr.Store(err)
-						mu.Lock()
-						active--
-						queue = nil
-						mu.Unlock()
-						cond.Broadcast()
+						fail(err)
 						return
 					}
 					if eng.QueryLog != nil {
 						slv.log = eng.QueryLog
 					}
 				}
-				res, forks := eng.runPath(i, slv, job, prefix, ws, funcs)
+				res, forks := eng.runPath(i, slv, it.job, it.prefix, ws, funcs)
 				instrs += res.Instrs
 				if i.static.dirty {
 					i = nil
@@ -1048,7 +1072,9 @@ func (eng *Engine) Explore(job *Job, cb func(*PathResult)) Stats {
 
 				mu.Lock()
 				active--
-				queue = append(queue, forks...)
+				for _, f := range forks {
+					queue = append(queue, workItem{it.job, f})
+				}
 				st.Paths++
 				st.ByOutcome[res.Outcome.String()]++
 				if cb != nil {
@@ -1063,7 +1089,7 @@ func (eng *Engine) Explore(job *Job, cb func(*PathResult)) Stats {
 	if e := firstErr.Load(); e != nil {
 		st.ByOutcome["engine-error"]++
 		if cb != nil {
-			cb(&PathResult{Job: job, Outcome: OutEngineError, Msg: e.(error).Error()})
+			cb(&PathResult{Job: jobs[0], Outcome: OutEngineError, Msg: e.(error).Error()})
 		}
 	}
 	st.WallSeconds = time.Since(t0).Seconds()
